@@ -393,6 +393,7 @@ class Session:
         self.dead = None
         self.datareceived_raised = None
         self.probes = 0
+        self.req_and_rst_together = set()  # streams whose HEADERS and RST_STREAM reached the server in one segment
         self.next_sid = 1
         self.settings_in_flight = 0  # h2's client acknowledges one pending value *per setting* per ACK,
         self.spin = 0                # so the scheduler keeps at most one SETTINGS frame un-ACKed
@@ -487,6 +488,8 @@ class Session:
                 return
             self.drain()  # what the server wrote earlier is judged against the windows of that time
             self.acct.client_bytes(c)
+            opened = set(sid for name, sid in self.acct.last_chunk if name == "HeadersFrame")
+            self.req_and_rst_together.update(sid for name, sid in self.acct.last_chunk if name == "RstStreamFrame" and sid in opened)
             try:
                 self.conn.dataReceived(c)
             except Exception as e:  # a real transport logs this and drops the connection
@@ -847,20 +850,32 @@ class Session:
                                 "server_h2_window": srvwin, "reactor_idle": self.mini.idle(), "plan": p.describe(),
                                 "producer_paused": p.paused})
         errors = list(self.mini.errors) + ["%s: %s" % (typ, msg) for typ, msg in cap.failures()]
+        consequences = ("stalled-with-open-window", "not-completed-after-windows-opened", "end-stream-not-sent",
+                        "window-update-does-not-wake-parked-send-loop", "window-opened-by-settings-not-noticed",
+                        "producer-not-resumed-with-open-window")
         negative = [e for e in errors if e.startswith("FlowControlError") and "flow control window is -" in e]
         if negative and self.acct.min_window_seen < 0:
             # section-6 style narrow key: SETTINGS_INITIAL_WINDOW_SIZE shrank a stream window below zero and
             # _sendPrioritisedData sliced with the negative size; h2 refused the frame, the exception killed the
             # send loop.  Stalls in the same session are its consequence, not a second mechanism.
             errors = [e for e in errors if e not in negative]
-            consequences = ("stalled-with-open-window", "not-completed-after-windows-opened", "end-stream-not-sent",
-                            "window-update-does-not-wake-parked-send-loop", "window-opened-by-settings-not-noticed",
-                            "producer-not-resumed-with-open-window")
             self.violations = [v for v in self.violations if v[0] not in consequences]
             self.violation("send-loop-dies-on-negative-window",
                            "after SETTINGS_INITIAL_WINDOW_SIZE made a stream window negative the send loop raised FlowControlError "
                            "and stopped for good: queued data is lost and every stream of the connection stalls",
                            {"errors": negative[:3], "most_negative_window": self.acct.min_window_seen})
+        cancelled = [e for e in errors if e.startswith("StreamClosedError:") and e.split(":")[1].strip().isdigit()
+                     and int(e.split(":")[1]) in self.req_and_rst_together]
+        if cancelled:
+            # narrow key: request and its RST_STREAM in one segment.  h2 has closed the stream before twisted starts the
+            # request; the resource's first write makes _sendPrioritisedData send on the closed stream, the
+            # StreamClosedError ends the send loop for the whole connection.
+            errors = [e for e in errors if e not in cancelled]
+            self.violations = [v for v in self.violations if v[0] not in consequences]
+            self.violation("request-then-rst-in-one-segment-kills-send-loop",
+                           "a request cancelled in the same segment is still started; its first write raises StreamClosedError inside "
+                           "the send loop, which stops for good: every other stream of the connection stalls",
+                           {"errors": cancelled[:3], "streams": sorted(self.req_and_rst_together)})
         for e in errors:
             self.violation("server-error-" + e.split(":")[0], "an exception escaped from a reactor call / was logged by the server", {"error": e})
         if self.datareceived_raised:
